@@ -1390,3 +1390,23 @@ package calendar
 //@   requires 0 <= k && k <= 29
 //@   body
 //@     assert(LunarUtil.NAYIN[LunarUtil.JIA_ZI[2*k]] == LunarUtil.NAYIN[LunarUtil.JIA_ZI[2*k+1]])
+
+//@ # suitable / avoid lists and auspicious / inauspicious spirits: each accessor's list is the packed-table decoder
+//@ # applied to the names of its defining inputs and to nothing else (month and day pillar - by the Jie day for school 1,
+//@ # by the Jie instant for school 2; lunar month number and day pillar; early-rat day pillar and hour pillar)
+//@ ghost func listsByDefiningInputs(l *Lunar) [C18]
+//@   body
+//@     mp := LunarUtil.GAN[l.monthGanIndex+1] + LunarUtil.ZHI[l.monthZhiIndex+1]
+//@     mx := LunarUtil.GAN[l.monthGanIndexExact+1] + LunarUtil.ZHI[l.monthZhiIndexExact+1]
+//@     dp := LunarUtil.GAN[l.dayGanIndex+1] + LunarUtil.ZHI[l.dayZhiIndex+1]
+//@     dx := LunarUtil.GAN[l.dayGanIndexExact+1] + LunarUtil.ZHI[l.dayZhiIndexExact+1]
+//@     tp := LunarUtil.GAN[l.timeGanIndex+1] + LunarUtil.ZHI[l.timeZhiIndex+1]
+//@     assert(l.GetDayYi() == LunarUtil.GetDayYi(mp, dp))
+//@     assert(l.GetDayYiBySect(1) == LunarUtil.GetDayYi(mp, dp))
+//@     assert(l.GetDayYiBySect(2) == LunarUtil.GetDayYi(mx, dp))
+//@     assert(l.GetDayJi() == LunarUtil.GetDayJi(mp, dp))
+//@     assert(l.GetDayJiBySect(2) == LunarUtil.GetDayJi(mx, dp))
+//@     assert(l.GetDayJiShen() == LunarUtil.GetDayJiShen(l.month, dp))
+//@     assert(l.GetDayXiongSha() == LunarUtil.GetDayXiongSha(l.month, dp))
+//@     assert(l.GetTimeYi() == LunarUtil.GetTimeYi(dx, tp))
+//@     assert(l.GetTimeJi() == LunarUtil.GetTimeJi(dx, tp))
